@@ -1,1 +1,165 @@
-/-! C06 — property theorems (stub: nothing proved yet). -/
+import B6.Lemmas.SearchCompile
+/-!
+# C06 — Search iterators implement sorted-set algebra under any call sequence
+
+The model is `B6.Model.Search` (array / tree leaves, `union`, `intersection`, `keyRange`, `tokenPrefix`,
+`empty`, and `Query.Compile`), the spec `B6.Spec.Cursor` (strictly increasing list + position) and
+`B6.Spec.SearchQuery` (`denote`).  `Refines ops s xs` = the implementation started in `s` answers **every**
+finite sequence of `Next` / `Advance(k)` calls, with arbitrary keys, exactly like the spec cursor over `xs`
+(same `Bool`, same value on `true`), up to the first `false` (`RefinesAt.run` turns it into transcripts).
+
+All theorems are for all inputs: any lists, any number of children, any query depth, any call sequence.
+Proofs are in `B6/Lemmas/Search*.lean`.
+-/
+namespace B6.Props.C06
+open B6.Spec.Cursor B6.Spec.SearchQuery B6.Model.Search B6.Lemmas.Search
+
+/-! ## The spec cursor is the sorted-set cursor the property talks about -/
+
+/-- A plain `Next` loop over the spec cursor yields exactly the list, in order, then `false`. -/
+theorem spec_drain (c : Cursor) :
+    runSpec c (List.replicate (c.rest.length + 1) Call.next) =
+      c.rest.map (fun x => (true, some x)) ++ [(false, none)] := by
+  obtain ⟨b, r⟩ := c
+  induction r generalizing b with
+  | nil => simp [runSpec, Cursor.next]
+  | cons x r ih =>
+    have := ih (b ++ [x])
+    simp only [List.length_cons, List.replicate_succ, runSpec, Cursor.next, ↓reduceIte, List.map_cons,
+      List.cons_append, List.cons.injEq, Prod.mk.injEq, true_and] at this ⊢
+    refine ⟨by simp [Cursor.cur], ?_⟩
+    simpa [List.replicate_succ, runSpec] using this
+
+/-- `advance k` never moves backwards, never skips: on `true` the new current element is the least
+element of the list that is `≥ k` and not before the old current element (so it stays put when the current
+element is already `≥ k`); on `false` no element `≥ k` exists. -/
+theorem spec_advance_first_ge (c : Cursor) (hw : c.WF) (k : Nat) :
+    ((c.advance k).1 = true →
+      c.pos ≤ (c.advance k).2.pos ∧ (c.advance k).2.xs = c.xs ∧
+      ∃ x, (c.advance k).2.cur = some x ∧ x ∈ c.xs ∧ k ≤ x ∧ (∀ v, c.cur = some v → v ≤ x) ∧
+        ∀ y ∈ c.xs, k ≤ y → (∀ v, c.cur = some v → v ≤ y) → x ≤ y) ∧
+    ((c.advance k).1 = false → ∀ y ∈ c.xs, y < k) := by
+  obtain ⟨h1, h2⟩ := Cursor.advance_spec hw k
+  exact ⟨fun ht => by obtain ⟨_, a, b, c⟩ := h1 ht; exact ⟨b, a, c⟩, h2⟩
+
+/-- `next` moves to the least element above the current one (strictly increasing output). -/
+theorem spec_next_least_above (c : Cursor) (hw : c.WF) :
+    (c.next.1 = true →
+      ∃ x, c.next.2.cur = some x ∧ x ∈ c.xs ∧ (∀ v, c.cur = some v → v < x) ∧
+        ∀ y ∈ c.xs, (∀ v, c.cur = some v → v < y) → x ≤ y) ∧
+    (c.next.1 = false → ∀ y ∈ c.xs, ∃ v, c.cur = some v ∧ y ≤ v) := by
+  obtain ⟨h1, h2⟩ := Cursor.next_spec hw
+  constructor
+  · intro ht
+    obtain ⟨_, _, _, x, hx, hxm, hlo, hleast⟩ := h1 ht
+    refine ⟨x, hx, hxm, ?_, ?_⟩
+    · intro v hv; simp [Cursor.lo, hv] at hlo; omega
+    · intro y hy hvy
+      apply hleast y hy
+      cases hc : c.cur with
+      | none => simp [Cursor.lo, hc]
+      | some v => have := hvy v hc; simp [Cursor.lo, hc]; omega
+  · intro hf y hy
+    have := h2 hf y hy
+    cases hc : c.cur with
+    | none => simp [Cursor.lo, hc] at this
+    | some v => simp [Cursor.lo, hc] at this; exact ⟨v, rfl, by omega⟩
+
+/-! ## Leaves and combinators: each one is a simulation when its children are -/
+
+/-- `arrayIndexIterator` over a strictly increasing posting list (and the tree-index leaf). -/
+theorem array_refines (kind : LeafKind) (xs : List Nat) (h : StrictSorted xs) :
+    Refines Leaf.ops ⟨kind, xs, 0⟩ xs :=
+  leaf_refines kind xs h
+
+/-- `union` (any number of children, any heap tie-breaking by first minimum): refines the cursor of any
+strictly increasing `ys` whose elements are exactly those of the children's lists. -/
+theorem union_refines {σ : Type} (o : IterOps σ) (children : List (σ × List Nat)) (ys : List Nat)
+    (hch : ∀ p ∈ children, Refines o p.1 p.2) (hys : StrictSorted ys)
+    (hmem : ∀ x, x ∈ ys ↔ ∃ p ∈ children, x ∈ p.2) :
+    Refines (Union.ops o) (.fresh (children.map (·.1))) ys :=
+  B6.Lemmas.Search.union_refines o children ys hch hys hmem
+
+/-- `intersection` (at least one child; any order the stable sort by `EstimateLength` produces). -/
+theorem intersection_refines {σ : Type} (o : IterOps σ) (fuel : Nat) (children : List (σ × List Nat))
+    (ys : List Nat) (hne : children ≠ [])
+    (hch : ∀ p ∈ children, Refines o p.1 p.2 ∧ p.2.length < fuel) (hys : StrictSorted ys)
+    (hmem : ∀ x, x ∈ ys ↔ ∀ p ∈ children, x ∈ p.2) :
+    Refines (Inter.ops o fuel) (Inter.new o (children.map (·.1))) ys :=
+  inter_refines o fuel o.estimate children ys hne hch hys hmem
+
+/-- The leapfrog loop terminates: in every state reachable by calls that returned `true` (`InterRel`),
+`Next` and `Advance k` finish within the fuel (they never answer `Err.fuel`), for every `k`. -/
+theorem intersection_terminates {σ : Type} (o : IterOps σ) (fuel : Nat) (its : List σ) (C : Cursor)
+    (h : InterRel o fuel its C) :
+    Inter.next o fuel its ≠ .error .fuel ∧ ∀ k, Inter.advance o fuel k its ≠ .error .fuel :=
+  inter_terminates o fuel its C h
+
+/-- `keyRange`: lazy `Advance(begin)`, end clamp. -/
+theorem keyRange_refines {σ : Type} (o : IterOps σ) (it : σ) (xs : List Nat) (b e : Nat)
+    (h : Refines o it xs) : Refines (Range.ops o) ⟨it, b, e, false⟩ (rangeList b e xs) :=
+  range_refines o b e h
+
+/-! ## Compiled query trees -/
+
+/-- **Main theorem.** For every valid index, every well-formed query tree of `empty / all / union /
+intersection / key-range / token-prefix` (no bound on depth or width), the compiled iterator refines the spec
+cursor over the list the query denotes. -/
+theorem compile_refines (F : Nat) (ix : Index) (hv : ix.Valid) (hF : ix.total < F) (q : SQuery) (hq : q.WF)
+    (d : Nat) (hd : depth q ≤ d) : Refines (ops F d) (compile F ix q) (q.denote ix) :=
+  B6.Lemmas.Search.compile_refines F ix hv hF q hq d hd
+
+/-- `tokenPrefix`: the scan of the sorted token list finds exactly the tokens with the prefix, and the union
+of their posting lists refines the cursor of the merged list. -/
+theorem tokenPrefix_refines (F : Nat) (ix : Index) (hv : ix.Valid) (hF : ix.total < F) (p : Token) (d : Nat)
+    (hd : 2 ≤ d) :
+    Refines (ops F d) (compile F ix (.tokenPrefix p))
+      (sortDedup ((ix.lists.filter (fun e => p.isPrefixOf e.1)).map (·.2)).flatten) := by
+  have := compile_refines F ix hv hF (.tokenPrefix p) (by simp [SQuery.WF]) d (by simpa [depth] using hd)
+  simpa [SQuery.denote] using this
+
+/-- The transcript of **any** call sequence on a compiled query equals the spec cursor's transcript. -/
+theorem compile_transcript (F : Nat) (ix : Index) (hv : ix.Valid) (hF : ix.total < F) (q : SQuery) (hq : q.WF)
+    (calls : List Call) :
+    runImpl (ops F (depth q)) (compile F ix q) calls = some (runSpec (start (q.denote ix)) calls) :=
+  (compile_refines F ix hv hF q hq (depth q) (Nat.le_refl _)).run calls
+
+/-- A plain `Next` loop on a compiled query yields exactly the denoted list, in increasing order. -/
+theorem compile_drain (F : Nat) (ix : Index) (hv : ix.Valid) (hF : ix.total < F) (q : SQuery) (hq : q.WF) :
+    runImpl (ops F (depth q)) (compile F ix q) (List.replicate ((q.denote ix).length + 1) Call.next) =
+      some ((q.denote ix).map (fun x => (true, some x)) ++ [(false, none)]) ∧
+    StrictSorted (q.denote ix) := by
+  refine ⟨?_, (denote_spec ix hv q).1⟩
+  rw [compile_transcript F ix hv hF q hq]
+  exact congrArg some (spec_drain (start (q.denote ix)))
+
+/-! ## Non-vacuity: the hypotheses hold of concrete, non-trivial values; and one worked transcript -/
+
+def exIndex : Index :=
+  ⟨.array, [("a=1".toList, [1, 4, 7, 9]), ("a=2".toList, [2, 4, 9, 12]), ("b".toList, [4, 5, 9, 20])]⟩
+
+def exQuery : SQuery :=
+  .inter [.union [.all "a=1".toList, .all "a=2".toList], .keyRange 3 15 (.tokenPrefix "b".toList),
+    .tokenPrefix "a=".toList]
+
+example : exIndex.Valid := by
+  unfold Index.Valid exIndex StrictSorted
+  decide
+
+example : exQuery.WF := by simp [exQuery, SQuery.WF, SQuery.WFList]
+
+example : exIndex.total < 13 := by decide
+
+example : exQuery.denote exIndex = [4, 9] := by decide
+
+example : StrictSorted [1, 4, 7, 9] := by unfold StrictSorted; decide
+
+example :
+    runSpec (start [4, 9]) [.advance 2, .advance 4, .next, .advance 100] =
+      [(true, some 4), (true, some 4), (true, some 9), (false, none)] := by decide
+
+/-- children satisfying the hypotheses of `union_refines` / `intersection_refines` -/
+example : Refines Leaf.ops ⟨.array, [1, 4, 7, 9], 0⟩ [1, 4, 7, 9] :=
+  array_refines .array _ (by unfold StrictSorted; decide)
+
+end B6.Props.C06
